@@ -439,7 +439,9 @@ def _end_to_end(res, rng, thorough):
     sizes = {"triclinic": 70, "monoclinic": 44, "orthorhombic": 44, "rhombohedral": 36, "tetragonal": 36, "hexagonal": 30}
     if thorough:
         sizes = {"triclinic": 160, "monoclinic": 90, "orthorhombic": 90, "rhombohedral": 70, "tetragonal": 70, "hexagonal": 60}
-    big_uniform = {"triclinic": 200, "monoclinic": 120, "orthorhombic": 300, "tetragonal": 100, "hexagonal": 120} if thorough else {}
+    # (the quick tier keeps the three sizes at which the recorded findings uniform_near_zero:* reproduce)
+    big_uniform = ({"triclinic": 200, "monoclinic": 120, "orthorhombic": 300, "tetragonal": 100, "hexagonal": 120} if thorough
+                   else {"orthorhombic": 300, "tetragonal": 100, "hexagonal": 120})
     tex_kinds = ["clustered", "girdle"] if not thorough else ["clustered", "girdle", "bimodal", "clustered"]
     for si, name in enumerate(SYSTEMS):
         sysm = _lat(G, name)
